@@ -374,6 +374,24 @@ class C12(Base):
             return rng.choice("so") + hx(rng.choice(["one", "other", "few", "1", "1.0", "foo", "", "é", "many", "zero", "two"]))
         return self.gen_ood_value(rng)
 
+    def boundary_family(self):
+        """MIN / MAX / MAX/2+1 of every Rust integer type, and floats that are ALMOST an exact key"""
+        bits = {"i8": 8, "i16": 16, "i32": 32, "i64": 64, "i128": 128, "isize": 64, "u8": 8, "u16": 16, "u32": 32, "u64": 64,
+                "u128": 128, "usize": 64}
+        for ty, b in bits.items():
+            if ty.startswith("i"):
+                vals = [-(1 << (b - 1)), (1 << (b - 1)) - 1, -1, 0]
+            else:
+                vals = [0, (1 << b) - 1, 1 << (b - 1), (1 << (b - 1)) - 1]
+            for v in vals:
+                yield "num en R%s:%d - D-1,D0,Ione,*Iother" % (ty, v)
+                yield "num pl R%s:%d - *Iother,D-1,Ifew,Imany" % (ty, v)
+        for x, key in (("1e-17", "0"), ("-1e-17", "0"), ("5e-324", "0"), ("1.0000000000000002", "1"), ("0.30000000000000004", "0.3"),
+                       ("0.5000000000000001", "0.5"), ("2.9999999999999996", "3"), ("1e-300", "0")):
+            for loc in ("en", "fr", "ar"):
+                yield "num %s Rf64:%s - D%s,Izero,Ione,*Iother" % (loc, x, key)
+                yield "num %s Rf64:%s - *Iother,D%s,Ione" % (loc, x, key)
+
     def gen_ood_value(self, rng):
         return rng.choice([
             "Rf64:NaN", "Rf64:inf", "Rf64:-inf", "Rf64:1e300", "Rf64:-1e300", "Rf64:-0", "Rf64:1e-25", "Rf64:5e-324",
@@ -475,6 +493,8 @@ class C12(Base):
         return "num %s %s %s %s" % (loc, val, self.gen_opts(rng), self.gen_keys(rng, val))
 
     def generate(self, rng, tier):
+        for c in self.boundary_family():
+            yield c
         ordinal = "type=Q" + hx("ordinal")
         # fixed family: property examples and the edge values named in DESIGN 6/C12
         for loc in ["en", "pl", "ru", "ar", "fr", "cs", "lt", "ja", "en-US", "xx"]:
@@ -614,7 +634,7 @@ class C12(Base):
         if o.get("cs", "same") != "same":
             return "the selected variant depends on the bundle flavour / on which plural rules were cached first: s=%s but %s" % (o["s"], o["cs"])
         if c.ood:
-            return None
+            return self.check_outside(c, o)
         p, pe = text_of(o["p"])
         if c.kind == "string":
             if p != c.string:
@@ -676,6 +696,43 @@ class C12(Base):
             return None
         # (5) the select
         return self.check_select(c, o, printed.rstrip("."), typ, got)
+
+    def check_outside(self, c, o):
+        """values outside the exact-decimal domain (huge, tiny, 128-bit): no exact decimal oracle, but what Rust's own
+        shortest round-trip printing gives still pins two things: (1) an argument of a Rust integer or f64 type prints
+        as a text that parses back to the f64 nearest to the argument (the 'same numeric value'); (2) an exact NUMERIC
+        key may be selected only by that very f64"""
+        if not c.val.startswith("R") or c.named is not None:
+            return None
+        ty, _, x = c.val[1:].partition(":")
+        try:
+            if ty in ("f64",):
+                want = float(x)
+            elif ty in ("f32",):
+                return None
+            else:
+                want = float(int(x))
+        except (ValueError, OverflowError):
+            return None
+        if want != want or want in (float("inf"), float("-inf")):
+            return None
+        p, _ = text_of(o["p"])
+        try:
+            got = float(p)
+        except ValueError:
+            return "argument of type %s printed as %r, which is not a number" % (ty, p)
+        if got != want:
+            return "argument %s of type %s printed as %r, which does not denote the same value" % (x[:40], ty, p[:60])
+        s, _ = text_of(o["s"])
+        if s.isdigit() and int(s) < len(c.variants):
+            kind, text, is_default = c.variants[int(s)]
+            if kind == "D" and not is_default:          # (the default is also what is chosen when nothing matches)
+                try:
+                    if float(text) != want:
+                        return "exact numeric key [%s] selected for the different number %s" % (text, x[:40])
+                except ValueError:
+                    pass
+        return None
 
     def check_select(self, c, o, printed, typ, got):
         s, se = text_of(o["s"])
